@@ -8,7 +8,7 @@ from common import *
 from wholeprog import *
 
 PID = "C02"
-COMMON_FEATS = {"cast", "struct", "method", "method-val", "struct-fn", "fixed-array", "dyn-array", "while", "for", "recursion"}
+COMMON_FEATS = {"cast", "struct", "method", "method-val", "struct-fn", "fixed-array", "dyn-array", "while", "for", "recursion", "eval-order", "eval-order-struct"}
 
 
 def term_class(r):
